@@ -295,6 +295,15 @@ def P(e, o):
     if k == 'paren':
         return '(%s)' % P(e.a, o)
     if k == 'bin':
+        if o.uf and e.isd and e.op == '*':
+            # products are compared as SEQUENCES of factors with squares expanded in place: re-association of a product
+            # (3.*r**2*a vs 3.*r*r*a, (p1*p2)**2 vs p1**2*p2**2) changes the result by rounding only -- "floating-point noise"
+            # of C01/C02, like the literal clustering.  Factor order is kept (a factor may draw a deviate).
+            fs = _factors(e, o)   # source order kept (factors may draw deviates): only association and (a*b)**2 are normalised
+            t = fs[0]
+            for x in fs[1:]:
+                t = 'bx_mul(%s, %s)' % (t, x)
+            return t
         if o.uf and e.isd and e.op in UFOPS:
             return '%s(%s, %s)' % (UFOPS[e.op], P(e.a, o), P(e.b, o))
         return '(%s %s %s)' % (P(e.a, o), e.op, P(e.b, o))
@@ -314,7 +323,11 @@ def P(e, o):
         if o.uf and e.extra and e.extra.get('powint'):
             if e.extra['powint'] == 2:
                 # x**2, gsl_pow_2(x) and x*x are the same product (one rounding): one canonical term
-                return 'bx_mul(%s, %s)' % (P(e.args[0], o), P(e.args[0], o))
+                fs = _factors(e, o)
+                t = fs[0]
+                for x in fs[1:]:
+                    t = 'bx_mul(%s, %s)' % (t, x)
+                return t
             return 'bx_uf_powi(%s, %d)' % (P(e.args[0], o), e.extra['powint'])
         return '%s(%s)' % (fn, ', '.join(P(x, o) for x in e.args))
     if k == 'cast':
@@ -378,6 +391,34 @@ def mk_addr(e):
     if e.k == 'deref':
         return e.a
     return E('addr', a=e)
+
+
+def _factors(e, o):
+    while e.k == 'paren':
+        e = e.a
+    if e.k == 'bin' and e.op == '*' and e.isd:
+        return _factors(e.a, o) + _factors(e.b, o)
+    if e.k == 'call' and isinstance(e.extra, dict) and e.extra.get('powint') == 2:
+        out = []
+        for x in _factors(e.args[0], o):          # (a*b)**2 -> a, a, b, b
+            out += [x, x]
+        return out
+    return [P(e, o)]
+
+
+def _fkey(txt):
+    """ordering key of a factor that is the same on both sides of a relational query"""
+    k = re.sub(r'\b[xr]_', '', txt)
+    k = re.sub(r'\b(decay0_|ref_)', '', k)
+    k = k.replace('(*', '').replace(')', '').replace('(', '').replace(' ', '').lower().rstrip('_')
+    k = re.sub(r'_\b', '', k)
+    return (k, txt)
+
+
+def _simple(e):
+    while e.k == 'paren':
+        e = e.a
+    return e.k in ('var', 'flit', 'ilit', 'member', 'deref', 'index')
 
 
 def walk_expr(e, f):
